@@ -14,6 +14,7 @@ import (
 	"time"
 
 	"pgregory.net/rapid"
+	"verif/harness/gen"
 	"verif/harness/h"
 )
 
@@ -26,6 +27,7 @@ type extSpec struct {
 	OID      []int
 	Critical bool
 	Value    h.B
+	FillLen  int // > 0: the value is FillLen pseudo-random bytes instead (lengths around the DER length-field steps)
 }
 
 type ipNetSpec struct {
@@ -161,9 +163,24 @@ func genExtras(rt *rapid.T, label string, max int) []extSpec {
 		default:
 			oid = []int{2, 5, 29, 90 + i} // an id-ce arc number the parser does not know
 		}
-		vl := rapid.IntRange(0, 40).Draw(rt, label+"-len")
-		v := rapid.SliceOfN(rapid.Byte(), vl, vl).Draw(rt, label+"-val")
-		out = append(out, extSpec{OID: oid, Critical: rapid.IntRange(0, 3).Draw(rt, label+"-crit") == 0, Value: v})
+		e := extSpec{OID: oid, Critical: rapid.IntRange(0, 3).Draw(rt, label+"-crit") == 0}
+		// value lengths: small, or around the places where a DER length field of
+		// the value or of an enclosing element grows by one octet (127/128,
+		// 255/256, and - rarely, it costs time - 65535/65536)
+		switch rapid.IntRange(0, 39).Draw(rt, label+"-lenclass") {
+		case 0, 1, 2, 3:
+			e.FillLen = rapid.IntRange(60, 135).Draw(rt, label+"-len128")
+		case 4, 5, 6:
+			e.FillLen = rapid.IntRange(150, 262).Draw(rt, label+"-len256")
+		case 7:
+			if i == 0 && max >= 3 {
+				e.FillLen = rapid.IntRange(64900, 65545).Draw(rt, label+"-len64k")
+			}
+		default:
+			vl := rapid.IntRange(0, 40).Draw(rt, label+"-len")
+			e.Value = rapid.SliceOfN(rapid.Byte(), vl, vl).Draw(rt, label+"-val")
+		}
+		out = append(out, e)
 	}
 	return out
 }
@@ -274,9 +291,12 @@ func dedupOIDs(in [][]int) [][]int {
 
 // ---------------------------------------------------------------- spec -> template
 
+func cpStrings(in []string) []string { return append([]string(nil), in...) }
+
 func toName(attrs []attrSpec) pkix.Name {
 	var n pkix.Name
 	for _, a := range attrs {
+		a.Vals = cpStrings(a.Vals)
 		switch a.Kind {
 		case 0:
 			n.Country = a.Vals
@@ -319,8 +339,12 @@ func toIPNet(s ipNetSpec) *net.IPNet {
 
 func toExts(in []extSpec) []pkix.Extension {
 	var out []pkix.Extension
-	for _, e := range in {
-		out = append(out, pkix.Extension{Id: asn1.ObjectIdentifier(e.OID), Critical: e.Critical, Value: append([]byte{}, e.Value...)})
+	for i, e := range in {
+		v := append([]byte{}, e.Value...)
+		if e.FillLen > 0 {
+			v = gen.Fill(gen.Mix(uint64(e.FillLen), uint64(i), 0xe7), e.FillLen)
+		}
+		out = append(out, pkix.Extension{Id: append(asn1.ObjectIdentifier{}, e.OID...), Critical: e.Critical, Value: v})
 	}
 	return out
 }
@@ -336,8 +360,8 @@ func mustURL(s string) *url.URL {
 func toTemplate(s certSpec) *x509.Certificate {
 	t := &x509.Certificate{
 		Subject:                     toName(s.Subject),
-		DNSNames:                    s.DNS,
-		EmailAddresses:              s.Emails,
+		DNSNames:                    cpStrings(s.DNS),
+		EmailAddresses:              cpStrings(s.Emails),
 		NotBefore:                   toTime(s.NotBeforeOff, s.TZ),
 		NotAfter:                    toTime(s.NotAfterOff, s.TZ),
 		KeyUsage:                    x509.KeyUsage(s.KeyUsage),
@@ -345,19 +369,19 @@ func toTemplate(s certSpec) *x509.Certificate {
 		IsCA:                        s.BC == 2,
 		MaxPathLen:                  s.MaxPathLen,
 		MaxPathLenZero:              s.MaxPathLenZero,
-		PermittedDNSDomains:         s.PermDNS,
-		ExcludedDNSDomains:          s.ExclDNS,
-		PermittedEmailAddresses:     s.PermEmail,
-		ExcludedEmailAddresses:      s.ExclEmail,
-		PermittedURIDomains:         s.PermURI,
-		ExcludedURIDomains:          s.ExclURI,
+		PermittedDNSDomains:         cpStrings(s.PermDNS),
+		ExcludedDNSDomains:          cpStrings(s.ExclDNS),
+		PermittedEmailAddresses:     cpStrings(s.PermEmail),
+		ExcludedEmailAddresses:      cpStrings(s.ExclEmail),
+		PermittedURIDomains:         cpStrings(s.PermURI),
+		ExcludedURIDomains:          cpStrings(s.ExclURI),
 		PermittedDNSDomainsCritical: s.NCCritical,
 		SubjectKeyId:                append([]byte{}, s.SKI...),
 		AuthorityKeyId:              append([]byte{}, s.AKI...),
 		ExtraExtensions:             toExts(s.Extra),
-		OCSPServer:                  s.OCSP,
-		IssuingCertificateURL:       s.IssuingURL,
-		CRLDistributionPoints:       s.CRLDP,
+		OCSPServer:                  cpStrings(s.OCSP),
+		IssuingCertificateURL:       cpStrings(s.IssuingURL),
+		CRLDistributionPoints:       cpStrings(s.CRLDP),
 	}
 	if len(s.Serial) > 0 {
 		t.SerialNumber = new(big.Int).SetBytes(s.Serial)
@@ -372,7 +396,7 @@ func toTemplate(s certSpec) *x509.Certificate {
 		t.ExtKeyUsage = append(t.ExtKeyUsage, x509.ExtKeyUsage(e))
 	}
 	for _, o := range s.UnknownEKU {
-		t.UnknownExtKeyUsage = append(t.UnknownExtKeyUsage, asn1.ObjectIdentifier(o))
+		t.UnknownExtKeyUsage = append(t.UnknownExtKeyUsage, append(asn1.ObjectIdentifier{}, o...))
 	}
 	for _, n := range s.PermIP {
 		t.PermittedIPRanges = append(t.PermittedIPRanges, toIPNet(n))
@@ -381,7 +405,128 @@ func toTemplate(s certSpec) *x509.Certificate {
 		t.ExcludedIPRanges = append(t.ExcludedIPRanges, toIPNet(n))
 	}
 	for _, o := range s.Policies {
-		t.PolicyIdentifiers = append(t.PolicyIdentifiers, asn1.ObjectIdentifier(o))
+		t.PolicyIdentifiers = append(t.PolicyIdentifiers, append(asn1.ObjectIdentifier{}, o...))
 	}
 	return t
+}
+
+// ---------------------------------------------------------------- caller-memory discipline
+
+func fillGarbage(b []byte) {
+	for i := range b {
+		b[i] = 0xa5
+	}
+}
+
+func garbleStrings(in []string) {
+	for i := range in {
+		in[i] = "scribbled.invalid"
+	}
+}
+
+func garbleOID(o asn1.ObjectIdentifier) {
+	for i := range o {
+		o[i] = 1
+	}
+}
+
+func garbleExts(in []pkix.Extension) {
+	for i := range in {
+		fillGarbage(in[i].Value)
+		garbleOID(in[i].Id)
+		in[i].Critical = !in[i].Critical
+	}
+}
+
+// scribbleCertTemplate overwrites everything a template owns after the
+// library returned: nothing the library produced may still refer to it.
+func scribbleCertTemplate(t *x509.Certificate) {
+	fillGarbage(t.SubjectKeyId)
+	fillGarbage(t.AuthorityKeyId)
+	garbleExts(t.ExtraExtensions)
+	for _, ip := range t.IPAddresses {
+		fillGarbage(ip)
+	}
+	for _, l := range [][]string{t.DNSNames, t.EmailAddresses, t.PermittedDNSDomains, t.ExcludedDNSDomains, t.PermittedEmailAddresses, t.ExcludedEmailAddresses,
+		t.PermittedURIDomains, t.ExcludedURIDomains, t.OCSPServer, t.IssuingCertificateURL, t.CRLDistributionPoints,
+		t.Subject.Country, t.Subject.Organization, t.Subject.OrganizationalUnit, t.Subject.Locality, t.Subject.Province, t.Subject.StreetAddress, t.Subject.PostalCode} {
+		garbleStrings(l)
+	}
+	for _, n := range append(append([]*net.IPNet{}, t.PermittedIPRanges...), t.ExcludedIPRanges...) {
+		fillGarbage(n.IP)
+		fillGarbage(n.Mask)
+	}
+	for _, o := range append(append([]asn1.ObjectIdentifier{}, t.UnknownExtKeyUsage...), t.PolicyIdentifiers...) {
+		garbleOID(o)
+	}
+	for i := range t.ExtKeyUsage {
+		t.ExtKeyUsage[i] = x509.ExtKeyUsageOCSPSigning
+	}
+	for _, u := range t.URIs {
+		*u = url.URL{Scheme: "scribbled"}
+	}
+	for i := range t.Subject.ExtraNames {
+		t.Subject.ExtraNames[i].Value = "scribbled"
+	}
+	if t.SerialNumber != nil {
+		t.SerialNumber.SetInt64(0x5c71bb1e)
+	}
+	t.Subject.CommonName, t.Subject.SerialNumber = "scribbled", "scribbled"
+	t.NotBefore, t.NotAfter = time.Time{}, time.Time{}
+}
+
+// emptyNotNil replaces the nil slices of a template by empty non-nil ones: a
+// zero-length value must mean the same in both forms.
+func emptyNotNil(t *x509.Certificate) {
+	if t.DNSNames == nil {
+		t.DNSNames = []string{}
+	}
+	if t.EmailAddresses == nil {
+		t.EmailAddresses = make([]string, 0, 4)
+	}
+	if t.IPAddresses == nil {
+		t.IPAddresses = []net.IP{}
+	}
+	if t.URIs == nil {
+		t.URIs = []*url.URL{}
+	}
+	if len(t.SubjectKeyId) == 0 {
+		t.SubjectKeyId = make([]byte, 0, 8)
+	}
+	if len(t.AuthorityKeyId) == 0 {
+		t.AuthorityKeyId = []byte{}
+	}
+	if t.ExtraExtensions == nil {
+		t.ExtraExtensions = []pkix.Extension{}
+	}
+	if t.ExtKeyUsage == nil {
+		t.ExtKeyUsage = []x509.ExtKeyUsage{}
+	}
+	if t.UnknownExtKeyUsage == nil {
+		t.UnknownExtKeyUsage = []asn1.ObjectIdentifier{}
+	}
+	if t.PermittedDNSDomains == nil {
+		t.PermittedDNSDomains = []string{}
+	}
+	if t.ExcludedDNSDomains == nil {
+		t.ExcludedDNSDomains = []string{}
+	}
+	if t.PermittedIPRanges == nil {
+		t.PermittedIPRanges = []*net.IPNet{}
+	}
+	if t.PolicyIdentifiers == nil {
+		t.PolicyIdentifiers = []asn1.ObjectIdentifier{}
+	}
+	if t.OCSPServer == nil {
+		t.OCSPServer = []string{}
+	}
+	if t.CRLDistributionPoints == nil {
+		t.CRLDistributionPoints = []string{}
+	}
+	if t.Subject.Country == nil {
+		t.Subject.Country = []string{}
+	}
+	if t.Subject.ExtraNames == nil {
+		t.Subject.ExtraNames = []pkix.AttributeTypeAndValue{}
+	}
 }
